@@ -15,26 +15,29 @@ import (
 // cannot proceed ends the path as BLOCKED.
 
 func (fr *frame) spawn(instr *ssa.Go, fn value, args []value) {
-	i := fr.i
-	// run inline; a BLOCKED end inside the goroutine only parks that goroutine
-	func() {
-		defer func() {
-			if r := recover(); r != nil {
-				if pe, ok := r.(pathEnd); ok && pe.kind == "BLOCKED" {
-					i.ctx.parked++
-					return
-				}
-				panic(r)
-			}
-		}()
-		call(i, fr, instr.Pos(), fn, args)
-	}()
+	fr.spawnGo(fn, args)
 }
+
+func (ch *channel) sendReady() bool {
+	if ch.closed || ch.sink != nil || ch.unboundedSink {
+		return true
+	}
+	if ch.cap == 0 {
+		// unbuffered: possible when a receiver is waiting and no value is in flight
+		return ch.recvWaiters > 0 && len(ch.buf) == 0
+	}
+	return len(ch.buf) < ch.cap
+}
+
+func (ch *channel) recvReady() bool { return len(ch.buf) > 0 || ch.closed }
 
 func (fr *frame) send(ch *channel, v value) {
 	c := fr.i.ctx
 	if ch == nil {
-		c.end("BLOCKED", "send on nil channel")
+		fr.park(func() bool { return false }, "send on nil channel at "+fr.site())
+	}
+	if !ch.sendReady() {
+		fr.park(ch.sendReady, fmt.Sprintf("send on channel (cap %d, len %d) at %s", ch.cap, len(ch.buf), fr.site()))
 	}
 	if ch.closed {
 		c.runtimeError(fr, "send on closed channel")
@@ -43,27 +46,28 @@ func (fr *frame) send(ch *channel, v value) {
 		ch.sink(fr, v)
 		return
 	}
-	if len(ch.buf) >= ch.cap && !ch.unboundedSink {
-		c.end("BLOCKED", "send on full channel (cap %d) at %s", ch.cap, fr.site())
-	}
 	ch.buf = append(ch.buf, copyVal(v))
 }
 
 func (fr *frame) recv(ch *channel, elem types.Type, commaOk bool) value {
-	c := fr.i.ctx
 	if ch == nil {
-		c.end("BLOCKED", "receive from nil channel")
+		fr.park(func() bool { return false }, "receive from nil channel at "+fr.site())
+	}
+	if !ch.recvReady() {
+		ch.recvWaiters++
+		func() {
+			defer func() { ch.recvWaiters-- }()
+			fr.park(ch.recvReady, "receive from empty channel at "+fr.site())
+		}()
 	}
 	var v value
 	ok := true
 	if len(ch.buf) > 0 {
 		v = ch.buf[0]
 		ch.buf = ch.buf[1:]
-	} else if ch.closed {
+	} else {
 		v = zero(elem)
 		ok = false
-	} else {
-		c.end("BLOCKED", "receive from empty channel at %s", fr.site())
 	}
 	if commaOk {
 		return tuple{v, ok}
@@ -74,27 +78,47 @@ func (fr *frame) recv(ch *channel, elem types.Type, commaOk bool) value {
 func (fr *frame) doSelect(instr *ssa.Select) value {
 	c := fr.i.ctx
 	var ready []int
-	for i, st := range instr.States {
-		ch, _ := fr.get(st.Chan).(*channel)
-		if ch == nil {
-			continue
-		}
-		if st.Dir == types.RecvOnly {
-			if len(ch.buf) > 0 || ch.closed {
-				ready = append(ready, i)
+	compute := func() {
+		ready = ready[:0]
+		for i, st := range instr.States {
+			ch, _ := fr.get(st.Chan).(*channel)
+			if ch == nil {
+				continue
 			}
-		} else {
-			if ch.closed || ch.sink != nil || ch.unboundedSink || len(ch.buf) < ch.cap {
+			if st.Dir == types.RecvOnly {
+				if ch.recvReady() {
+					ready = append(ready, i)
+				}
+			} else if ch.sendReady() {
 				ready = append(ready, i)
 			}
 		}
 	}
+	compute()
+	if len(ready) == 0 && instr.Blocking {
+		// park until some case becomes possible; while parked this goroutine counts as a
+		// waiting receiver on the channels of its receive cases
+		var rch []*channel
+		for _, st := range instr.States {
+			if ch, _ := fr.get(st.Chan).(*channel); ch != nil && st.Dir == types.RecvOnly {
+				ch.recvWaiters++
+				rch = append(rch, ch)
+			}
+		}
+		func() {
+			defer func() {
+				for _, ch := range rch {
+					ch.recvWaiters--
+				}
+			}()
+			fr.park(func() bool { compute(); return len(ready) > 0 }, "select with no ready case at "+fr.site())
+		}()
+		compute()
+	}
 	chosen := -1
 	switch {
 	case len(ready) == 0:
-		if instr.Blocking {
-			c.end("BLOCKED", "select with no ready case at %s", fr.site())
-		}
+		// non-blocking select: default case
 	case len(ready) == 1:
 		chosen = ready[0]
 	default:
